@@ -173,6 +173,11 @@ class RT(object):
     P = self.P
     PC, RP, R = P["PC"], P["RP"], P["R"]
     self.saved = (PC.core, PC.time, R.defaultScheduler, threading.Thread)
+    # POXCore._quit calls gc.collect() several times (to let weak listeners go).  A full collection scans
+    # everything the test driver has allocated so far, which makes cases slower the longer a run lasts;
+    # collect the young generation only (nothing in this property depends on the collector).
+    self._gc_collect = gc.collect
+    gc.collect = self._young_collect
     orig = R.Scheduler
 
     def factory(*a, **kw):
@@ -207,6 +212,7 @@ class RT(object):
   def finish(self):
     PC, R = self.P["PC"], self.P["R"]
     PC.core, PC.time, R.defaultScheduler, threading.Thread = self.saved
+    gc.collect = self._gc_collect
     _FakeThread.rt = None
     if self.core is not None:
       self.core.scheduler._hasQuit = True
@@ -214,6 +220,9 @@ class RT(object):
       self.core._waiters = []
     if threading.active_count() != self.nthreads:
       raise HarnessError("a real thread was started during the case")
+
+  def _young_collect(self, generation=0):
+    return self._gc_collect(0)
 
   @staticmethod
   def _readable(o):
@@ -877,5 +886,5 @@ def plan(tier):
     ]
   return [
     Enum("permutations", lambda: _enum(5), shards=16),
-    Hyp("histories", lambda: _strategy(tier), examples=100000, shards=16),
+    Hyp("histories", lambda: _strategy(tier), examples=60000, shards=16),
   ]
